@@ -208,11 +208,11 @@ m("C06", "literal-given-to-%s-bare", "src/rules/remove_interpolated_string.rs",
 m("C08", "elseif-condition-effects-ignored", "src/process/evaluator/mod.rs",
   "                if self.has_side_effects(branch.get_condition())\n                    || self.has_side_effects(branch.get_result())\n                {",
   "                if self.has_side_effects(branch.get_result()) {",
-  "C08.if-effects|unknown-condition|asks|ElseIfExpressionBranch.condition")
+  "C08.if-effects|effect-in|ElseIfExpressionBranch.condition")
 m("C01", "elseif-condition-effects-ignored", "src/process/evaluator/mod.rs",
   "                if self.has_side_effects(branch.get_condition())\n                    || self.has_side_effects(branch.get_result())\n                {",
   "                if self.has_side_effects(branch.get_result()) {",
-  "C01.if-effects|unknown-condition|asks|ElseIfExpressionBranch.condition")
+  "C01.if-effects|effect-in|ElseIfExpressionBranch.condition")
 m("C02", "cast-check-only-for-binary-left", "src/nodes/expressions/binary.rs",
   "            || (matches!(self, BinaryOperator::LowerThan)\n                && ends_with_type_cast_to_type_name_without_type_parameters(left))",
   "            || (matches!(self, BinaryOperator::LowerThan)\n                && matches!(left, Expression::Binary(_) | Expression::TypeCast(_))\n                && ends_with_type_cast_to_type_name_without_type_parameters(left))",
@@ -220,7 +220,7 @@ m("C02", "cast-check-only-for-binary-left", "src/nodes/expressions/binary.rs",
 m("C02", "left-assoc-operand-bare", "src/nodes/expressions/binary.rs",
   "                if self.is_left_associative() {\n                    self.precedes(left.operator())\n                } else {\n                    !left.operator().precedes(*self)\n                }",
   "                self.precedes(left.operator())",
-  "C02.needs|left|binary|assoc=False,parent>child=False,child>parent=False")
+  "C02.needs|left|binary|Concat|Concat")
 m("C14", "tab-and-cr-allowed-in-long-bracket", "src/generator/utils.rs",
   "    !(character.is_ascii_graphic() || *character == b' ' || *character == b'\\n')",
   "    !(character.is_ascii_graphic() || *character == b' ' || *character == b'\\n' || *character == b'\\r')",
